@@ -538,26 +538,27 @@ func Run(r *hx.Run, replay []hx.Case) {
 	}
 	x := g{r}
 	thorough := r.Tier == "thorough"
-	scale := 1
+	// quick: about 10 000 model-compared cases (a few seconds); the volume is in the thorough tier
+	nGrammar, nMut, nRead, nBytes, nFuzz := 6000, 3000, 700, 300, 5000
 	if thorough {
-		scale = 25
+		nGrammar, nMut, nRead, nBytes, nFuzz = 300000, 150000, 37500, 15000, 375000
 	}
 	// 1. targeted witnesses (string entry point and reader entry point)
 	for _, w := range witnesses() {
 		runOne(r, r.NewID(), w, -1, 0, "witness", true)
 	}
 	// 2. grammar-based messages
-	for i := 0; i < 12000*scale && !r.Expired() && !hung; i++ {
+	for i := 0; i < nGrammar && !r.Expired() && !hung; i++ {
 		runOne(r, r.NewID(), x.message(), -1, 0, "grammar", true)
 	}
 	// 3. structure-aware mutations of valid renderings
 	sd := seeds()
 	sd = append(sd, witnesses()[7], witnesses()[8])
-	for i := 0; i < 6000*scale && !r.Expired() && !hung; i++ {
+	for i := 0; i < nMut && !r.Expired() && !hung; i++ {
 		runOne(r, r.NewID(), x.mutate(sd[x.n(len(sd))]), -1, 0, "mutation", true)
 	}
 	// 4. readers that fail at an offset / deliver small chunks
-	for i := 0; i < 1500*scale && !r.Expired() && !hung; i++ {
+	for i := 0; i < nRead && !r.Expired() && !hung; i++ {
 		var raw []byte
 		if x.p(50) {
 			raw = x.message()
@@ -582,7 +583,7 @@ func Run(r *hx.Run, replay []hx.Case) {
 		}
 	}
 	// 5. arbitrary bytes
-	for i := 0; i < 600*scale && !r.Expired() && !hung; i++ {
+	for i := 0; i < nBytes && !r.Expired() && !hung; i++ {
 		b := make([]byte, x.n(120))
 		for j := range b {
 			switch x.n(6) {
@@ -600,7 +601,7 @@ func Run(r *hx.Run, replay []hx.Case) {
 	//    only the direct oracle looks at these (no panic, returns in the time box)
 	pool := append([][]byte(nil), sd...)
 	seen := map[string]bool{}
-	iters := 15000 * scale
+	iters := nFuzz
 	for i := 0; i < iters && !r.Expired() && !hung; i++ {
 		in := x.mutate(pool[x.n(len(pool))])
 		if len(in) > 6000 {
